@@ -93,6 +93,8 @@ type schedWorld struct {
 	// requests whose client is inside GetRunner right now, by task key (submissions that are
 	// not made atomically, see client)
 	submitting map[string]*schedReq
+	// evict-idle scenario, CPU variant: the system reports next to no free memory until this runner has been shut down
+	sysMemShortUntilClosed *simLlama
 }
 
 func (w *schedWorld) violate(prop, class, sig, f string, a ...any) {
@@ -610,6 +612,10 @@ func runSched(t *testing.T, tape *verifsim.Tape, prop, tier string, keepLog bool
 		s.getGpuFn = w.gpuList
 		s.getCpuFn = func() discover.GpuInfoList {
 			l := w.inv.cpuList()
+			if w.sysMemShortUntilClosed != nil && w.sysMemShortUntilClosed.closed == 0 {
+				// system memory is nearly exhausted until that runner is gone
+				l[0].FreeMemory = 1 << 20
+			}
 			return l
 		}
 		verifGetGPUInfo = w.gpuList
@@ -798,6 +804,15 @@ func (w *schedWorld) evictIdleScenario(sim *verifsim.Sim) {
 	idle := mk(1, perm[1], kas[d("ka-idle", 4)])
 	third := mk(2, perm[2], kas[d("ka-third", 4)])
 	busy.holdUntil = func() bool { return third.replies > 0 }
+	// CPU variant: below the runner limit; the busy runner and the newcomer are CPU-only
+	// (num_gpu=0) and room has to be made because system memory is short (Scheduler.
+	// maybeFindCPURunnerToUnload) - the idle runner is still the one to evict.
+	cpuVariant := d("evict-cpu-variant", 3) == 0
+	if cpuVariant {
+		os.Setenv("OLLAMA_MAX_LOADED_MODELS", "3")
+		busy.opts.NumGPU = 0
+		third.opts.NumGPU = 0
+	}
 	idle.holdFor = time.Duration(d("idle-hold", 3000)) * time.Millisecond
 	third.holdFor = time.Duration(d("third-hold", 3000)) * time.Millisecond
 	t1 := time.Duration(d("think-a", 3000)) * time.Millisecond
@@ -817,11 +832,18 @@ func (w *schedWorld) evictIdleScenario(sim *verifsim.Sim) {
 		return
 	}
 	verifsim.Probe("evict_scene_set")
+	if cpuVariant {
+		verifsim.Probe("evict_scene_cpu_mode")
+		w.sysMemShortUntilClosed = idle.inst
+	}
 	t3 := time.Duration(d("think-c", 2000)) * time.Millisecond
 	sim.Go("client2", func() { w.client(third, t3) })
 	stop = sim.RunUntil(func() bool { return third.replies > 0 }, 10*time.Minute, 20000)
 	if stop == verifsim.CondTrue {
 		verifsim.Probe("evict_idle_ok")
+		if cpuVariant && idle.inst.closed > 0 {
+			verifsim.Probe("evict_cpu_mode_idle_evicted")
+		}
 		if third.inst != nil && busy.inst != nil && busy.inst.closed > 0 {
 			w.violate("C11", "evict-busy", "evict-busy-while-idle-exists", "making room for %s shut down the busy runner #%d although runner #%d was idle", filepath.Base(third.m.ModelPath), busy.inst.id, idle.inst.id)
 		}
